@@ -70,6 +70,23 @@ CLAIMED.update({
                    "compares the recorded call sequence with the predicted one; a sample runs in a subprocess where the classes "
                    "come from a plugin folder via import_plugins().",
                    "DESIGN.md section 5, C20"),
+    "C12": ("TLA+ spec Delimited.tla (loader acceptance + csv keyword mapping + transcribed csv writer/reader automata): TLC "
+            "exhaustive over 40 configuration classes x all tables within bounds; every behaviour replayed through "
+            "DelimitedRowWriter / delimited_rows, plus the full concrete configuration product",
+            "TLC checks RoundTrip for every accepted configuration class and every table within the bounds (and finds the D7 "
+            "counterexample with the pinned acceptance rule); each behaviour is replayed on the real writer/reader; the csv "
+            "transcription is compared with Python's csv on every behaviour (difference = machinery failure).",
+            "Bounds: <= 2 rows, <= 2-4 cells, <= 3-4 characters per table over {delimiter, quote, escape, CR, LF, blank, x}; "
+            "14 x 20 x 2 x 2 x 4 concrete configurations mapped onto their classes; Python's csv is modelled, not proved.",
+            "DESIGN.md section 5, C12"),
+    "C13": ("TLA+ spec FixedReader.tla (character-level machine of fixed_rows with push-back vs. directly stated language): TLC "
+            "exhaustive over all strings <= 5 (thorough 6-7) x width lists x 5 delimiter settings + simulated mutants of longer "
+            "well-formed files; every behaviour replayed through rowio.fixed_rows",
+            "TLC checks LosslessAndAligned and ConsumedSoFar in every state; each explored input is read by the real fixed_rows "
+            "and compared with Parse(input): rows, widths, and refusal of every malformed input.",
+            "Bounds: alphabet {a, b, CR, LF}; quick 10 of the 39 width lists, thorough all; longer files only well-formed with "
+            "one mutation.",
+            "DESIGN.md section 5, C13"),
 })
 
 NOT_BUILT = "check not built yet in this round (planned: see DESIGN.md section 5)"
